@@ -315,7 +315,8 @@ func (e *Engine) Load(name string) (*Template, error) {
 			}
 
 			LogError(ErrTemplateNotFound, errorDetails.String())
-			return nil, fmt.Errorf("%w: %s", ErrTemplateNotFound, errorDetails.String())
+			// Keep every loader's own error reachable through errors.Is / errors.As
+			return nil, fmt.Errorf("%w: %s%w", ErrTemplateNotFound, errorDetails.String(), silentErrors(loaderErrors))
 		}
 
 		LogError(ErrTemplateNotFound, fmt.Sprintf("Template '%s' not found. No loaders configured.", name))
@@ -331,6 +332,12 @@ func (e *Engine) Load(name string) (*Template, error) {
 
 	return template, nil
 }
+
+// silentErrors carries the causes of a failed load without repeating their text
+type silentErrors []error
+
+func (e silentErrors) Error() string   { return "" }
+func (e silentErrors) Unwrap() []error { return e }
 
 // RegisterString registers a template from a string source
 func (e *Engine) RegisterString(name string, source string) error {
